@@ -1,3 +1,312 @@
+//! C16 — key material is erased when keys are dropped.
+//!
+//! The simulator owns the lifetime of key objects: it decides by which path an object came to
+//! exist, what was done with it (including operations during which the RNG device failed), in
+//! which container it sits, and when it is destroyed; then it reads every byte of the slot.
+
+use crate::arena::DropObs;
 use crate::common::*;
-pub fn run(_ctx: &Ctx) -> i32 { harness_error("c16 not built yet") }
-pub fn replay_body(_b: &serde_json::Value) -> Result<Option<(String, String, String)>, String> { Err("todo".into()) }
+use crate::prng::Prng;
+use crate::sets::{self, C16Case, Container, DynSet, KeyTy, Mode, Prov, Use, MODES};
+use serde_json::{json, Value};
+use std::collections::{BTreeMap, BTreeSet};
+
+const SK_PROVS: [Prov; 6] = [Prov::KeygenSeed, Prov::KeygenRng, Prov::KeygenOs, Prov::FromBytes, Prov::CloneOf, Prov::CloneOfFromBytes];
+const PK_PROVS: [Prov; 8] = [
+    Prov::KeygenSeed, Prov::KeygenRng, Prov::KeygenOs, Prov::FromBytes, Prov::CloneOf, Prov::CloneOfFromBytes,
+    Prov::Derived, Prov::DerivedFromRoundTripped,
+];
+const CONTAINERS: [Container; 5] = [Container::Bare, Container::Tuple, Container::OptionSome, Container::ResultOk, Container::Array2];
+
+fn use_name(u: &Use) -> String {
+    match u {
+        Use::Sign(m) => format!("sign:{}", m.name()),
+        Use::SignRngFails => "sign_rng_fails".into(),
+        Use::Verify(m) => format!("verify:{}", m.name()),
+        Use::VerifyBad => "verify_bad".into(),
+        Use::ToBytes => "to_bytes".into(),
+        Use::GetPublic => "get_public".into(),
+    }
+}
+
+fn use_from(s: &str) -> Option<Use> {
+    if let Some(m) = s.strip_prefix("sign:") {
+        return Mode::from_name(m).map(Use::Sign);
+    }
+    if let Some(m) = s.strip_prefix("verify:") {
+        return Mode::from_name(m).map(Use::Verify);
+    }
+    match s {
+        "sign_rng_fails" => Some(Use::SignRngFails),
+        "verify_bad" => Some(Use::VerifyBad),
+        "to_bytes" => Some(Use::ToBytes),
+        "get_public" => Some(Use::GetPublic),
+        _ => None,
+    }
+}
+
+fn case_json(set: &str, c: &C16Case) -> Value {
+    json!({
+        "set": set,
+        "type": format!("{:?}", c.ty),
+        "provenance": format!("{:?}", c.prov),
+        "uses": c.uses.iter().map(use_name).collect::<Vec<_>>(),
+        "container": format!("{:?}", c.container),
+        "seed_xi": hx(&c.seed),
+        "stream": hx(&c.stream),
+        "msg": hx(&c.msg),
+        "ctx": hx(&c.ctx),
+    })
+}
+
+fn case_from(v: &Value) -> Option<(&'static dyn DynSet, C16Case)> {
+    let set = sets::set_by_name(v["set"].as_str()?)?;
+    let ty = match v["type"].as_str()? {
+        "Sk" => KeyTy::Sk,
+        "Pk" => KeyTy::Pk,
+        _ => return None,
+    };
+    let prov = *PK_PROVS.iter().find(|p| format!("{p:?}") == v["provenance"].as_str().unwrap_or(""))?;
+    let container = *CONTAINERS.iter().find(|p| format!("{p:?}") == v["container"].as_str().unwrap_or(""))?;
+    let uses = v["uses"].as_array()?.iter().map(|u| use_from(u.as_str()?)).collect::<Option<Vec<_>>>()?;
+    Some((set, C16Case { ty, prov, uses, container, seed: unhx32(&v["seed_xi"]), stream: unhx(&v["stream"]), msg: unhx(&v["msg"]), ctx: unhx(&v["ctx"]) }))
+}
+
+enum Verdict {
+    Held(Vec<DropObs>),
+    Unavailable,
+    Harness(String),
+    Violated(Vec<DropObs>, DropObs),
+}
+
+fn judge(set: &dyn DynSet, c: &C16Case) -> Verdict {
+    match catch(|| set.c16_case(c)) {
+        Err(p) => Verdict::Harness(format!("C16: panic while driving lifecycle {}: {p}", c.label(set.info().name))),
+        Ok(Err(e)) if e.starts_with("unavailable") => Verdict::Unavailable,
+        Ok(Err(e)) => Verdict::Harness(format!("C16: {e} ({})", c.label(set.info().name))),
+        Ok(Ok(obs)) => {
+            for o in &obs {
+                // guard against a vacuous observation: the window must hold a live key before the drop
+                if !o.needle_found || o.nonzero_before * 4 < o.size {
+                    return Verdict::Harness(format!(
+                        "C16: window `{}` of {} does not look like a live key before the drop (rho found: {}, non-zero {}/{})",
+                        o.window, o.label, o.needle_found, o.nonzero_before, o.size
+                    ));
+                }
+            }
+            if let Some(bad) = obs.iter().find(|o| o.nonzero_after != 0) {
+                let b = bad.clone();
+                return Verdict::Violated(obs, b);
+            }
+            Verdict::Held(obs)
+        }
+    }
+}
+
+fn gen_uses(p: &mut Prng, ty: KeyTy, n: usize) -> Vec<Use> {
+    (0..n)
+        .map(|_| match ty {
+            KeyTy::Sk => match p.below(5) {
+                0 => Use::Sign(*p.pick(&MODES)),
+                1 => Use::SignRngFails,
+                2 => Use::ToBytes,
+                3 => Use::GetPublic,
+                _ => Use::Sign(Mode::Pure),
+            },
+            KeyTy::Pk => match p.below(4) {
+                0 => Use::Verify(*p.pick(&MODES)),
+                1 => Use::VerifyBad,
+                2 => Use::ToBytes,
+                _ => Use::Verify(Mode::Pure),
+            },
+        })
+        .collect()
+}
+
+struct CaseOut {
+    evals: u64,
+    windows: u64,
+    bytes: u64,
+    sig: Option<String>,
+    viol: Option<Violation>,
+    harness: Option<String>,
+    sample: Option<Value>,
+    unavailable: bool,
+    drops: u64,
+}
+
+pub fn run(ctx: &Ctx) -> i32 {
+    let all: Vec<&'static dyn DynSet> = if ctx.extra.contains_key("only-set") {
+        sets::sets().into_iter().filter(|s| s.info().name == ctx.extra["only-set"]).collect()
+    } else {
+        sets::sets()
+    };
+    let variants: u64 = match ctx.tier {
+        Tier::Quick => ctx.scaled(20),
+        Tier::Thorough => ctx.scaled(40),
+    };
+    let skip_os = cfg!(miri);
+    let mut cases: Vec<(usize, C16Case)> = Vec::new();
+    for (si, set) in all.iter().enumerate() {
+        for (ty, provs) in [(KeyTy::Sk, &SK_PROVS[..]), (KeyTy::Pk, &PK_PROVS[..])] {
+            for prov in provs {
+                if skip_os && *prov == Prov::KeygenOs {
+                    continue;
+                }
+                for cont in CONTAINERS {
+                    for v in 0..variants {
+                        let mut p = Prng::for_run(ctx.seed, &format!("c16-{}-{ty:?}-{prov:?}-{cont:?}", set.info().name), v);
+                        let n_uses = if v == 0 { 0 } else { 1 + p.usize_below(5) };
+                        let uses = gen_uses(&mut p, ty, n_uses);
+                        let (ml, cl) = (p.usize_below(200), p.usize_below(40));
+                        cases.push((si, C16Case { ty, prov: *prov, uses, container: cont, seed: p.array32(), stream: p.bytes(64), msg: p.bytes(ml), ctx: p.bytes(cl) }));
+                    }
+                }
+            }
+        }
+    }
+    let outs = run_indexed(cases.len(), ctx.workers, |i| {
+        let (si, c) = &cases[i];
+        let set = all[*si];
+        let name = set.info().name;
+        let mut out = CaseOut { evals: 1, windows: 0, bytes: 0, sig: None, viol: None, harness: None, sample: None, unavailable: false, drops: 0 };
+        match judge(set, c) {
+            Verdict::Unavailable => out.unavailable = true,
+            Verdict::Harness(h) => out.harness = Some(h),
+            Verdict::Held(obs) => {
+                out.drops = 1;
+                out.windows = obs.len() as u64;
+                out.bytes = obs.iter().map(|o| o.size as u64).sum();
+                let kinds: BTreeSet<&str> = c.uses.iter().map(|u| match u {
+                    Use::Sign(_) => "sign", Use::SignRngFails => "sign_rng_fails", Use::Verify(_) => "verify",
+                    Use::VerifyBad => "verify_bad", Use::ToBytes => "to_bytes", Use::GetPublic => "get_public",
+                }).collect();
+                out.sig = Some(format!("{name}|{:?}|{:?}|{:?}|{}", c.ty, c.prov, c.container, kinds.into_iter().collect::<Vec<_>>().join("+")));
+                if i % 97 == 0 {
+                    out.sample = Some(json!({"case": case_json(name, c), "windows": obs.iter().map(|o| json!({"window": o.window, "bytes": o.size, "nonzero_before": o.nonzero_before, "nonzero_after": o.nonzero_after})).collect::<Vec<_>>()}));
+                }
+            }
+            Verdict::Violated(_obs, bad) => {
+                out.drops = 1;
+                let mut body = case_json(name, c);
+                body["window"] = json!(bad.window);
+                body["observed"] = json!(format!(
+                    "{} of {} bytes of the dropped {} object are non-zero (first at offset {})",
+                    bad.nonzero_after, bad.size, bad.window, bad.first_nonzero_after.unwrap_or(0)
+                ));
+                body["expected"] = json!("every byte of the dropped key object is zero");
+                out.viol = Some(Violation { run: i as u64, invariant: "not-erased".into(), finding_key: format!("not-erased:{}", bad.window), body });
+            }
+        }
+        out
+    });
+    let mut evals = 0u64;
+    let (mut windows, mut bytes, mut drops, mut unavailable) = (0u64, 0u64, 0u64, 0u64);
+    let mut sigs = BTreeSet::new();
+    let mut viols = Vec::new();
+    let mut samples = Vec::new();
+    for o in outs {
+        if let Some(h) = o.harness {
+            harness_error(&h);
+        }
+        evals += o.evals;
+        windows += o.windows;
+        bytes += o.bytes;
+        drops += o.drops;
+        if o.unavailable {
+            unavailable += 1;
+        }
+        if let Some(s) = o.sig {
+            sigs.insert(s);
+        }
+        if let Some(v) = o.viol {
+            viols.push(v);
+        }
+        if let Some(s) = o.sample {
+            if samples.len() < 5 {
+                samples.push(s);
+            }
+        }
+    }
+    let viol_total = viols.len();
+    let mut by_key: BTreeMap<String, Violation> = BTreeMap::new();
+    for v in viols {
+        by_key.entry(format!("{}|{}", v.finding_key, v.body["set"])).or_insert(v);
+    }
+    let viols: Vec<Violation> = by_key.into_values().map(minimise).collect();
+    let (code, new, kn) = report_violations(ctx, &viols);
+    let sizes: BTreeMap<&str, Value> = all.iter().map(|s| (s.info().name, json!({"PrivateKey_bytes": s.sizes().0, "PublicKey_bytes": s.sizes().1}))).collect();
+    write_evidence(ctx, Evidence {
+        level: "exploration",
+        evaluations: evals,
+        signatures: sigs.into_iter().collect(),
+        rule: "Exhaustive matrix (set x key type x provenance {keygen_from_seed, try_keygen_with_rng, try_keygen (OS seam), try_from_bytes, clone, clone of deserialised, get_public_key, get_public_key of round-tripped} x container {bare, (pk,sk) tuple, Option, Result<(pk,sk),_>, [key;2]}) times seeded use histories of 0..5 events (sign in four modes, a signing attempt during which the RNG device fails, verify good/bad, serialise, derive). The object is destroyed in place (ptr::drop_in_place) in a simulator-owned slot and every byte of each key window is read back with volatile reads. A case is distinct by (set, type, provenance, container, kinds of use); it is non-trivial only if, immediately before the drop, the window contained the key's rho and at least 25% non-zero bytes (otherwise the run aborts as a harness error).".into(),
+        samples,
+        exhaustive: false,
+        extra: json!({
+            "matrix_enumerated_completely": true,
+            "drop_events": drops,
+            "key_windows_inspected": windows,
+            "bytes_read_back": bytes,
+            "cases_unavailable_in_this_build": unavailable,
+            "faults_fired": {"object_destruction": drops},
+            "object_sizes": sizes,
+            "violating_cases": viol_total,
+            "runs": evals,
+            "real_vs_stub": REAL_STUB,
+            "miri": cfg!(miri),
+            "sets": all.iter().map(|s| s.info().name).collect::<Vec<_>>(),
+        }),
+        assumptions: vec![
+            "Drop here is history-independent (no interior state): the strength of the check is the exhaustive matrix and the every-byte read-back, not the number of histories".into(),
+            "copies the compiler leaves behind when a key is moved (including the by-value self of into_bytes) are outside the statement and are not examined".into(),
+            "the harness's unsafe read-back discipline is itself validated under Miri in the thorough tier (ML-DSA-44)".into(),
+        ],
+        violations: new,
+        known_findings: kn,
+    });
+    code
+}
+
+pub fn replay_body(body: &Value) -> Result<Option<(String, String, String)>, String> {
+    let (set, c) = case_from(body).ok_or("bad C16 replay body")?;
+    match judge(set, &c) {
+        Verdict::Held(_) => Ok(None),
+        Verdict::Unavailable => Err("case unavailable in this build".into()),
+        Verdict::Harness(h) => Err(h),
+        Verdict::Violated(_, bad) => Ok(Some((
+            "not-erased".into(),
+            format!("{} of {} bytes of the dropped {} object are non-zero (first at offset {})", bad.nonzero_after, bad.size, bad.window, bad.first_nonzero_after.unwrap_or(0)),
+            "every byte of the dropped key object is zero".into(),
+        ))),
+    }
+}
+
+fn minimise(v: Violation) -> Violation {
+    let mut body = v.body.clone();
+    let still = |b: &Value| matches!(replay_body(b), Ok(Some(_)));
+    if !still(&body) {
+        return v;
+    }
+    let tries: Vec<Box<dyn Fn(&mut Value)>> = vec![
+        Box::new(|b| b["uses"] = json!([])),
+        Box::new(|b| b["container"] = json!("Bare")),
+        Box::new(|b| b["provenance"] = json!("KeygenSeed")),
+        Box::new(|b| b["msg"] = json!("")),
+        Box::new(|b| b["ctx"] = json!("")),
+        Box::new(|b| b["seed_xi"] = json!("00".repeat(32))),
+        Box::new(|b| b["set"] = json!("ml-dsa-44")),
+    ];
+    for t in &tries {
+        let mut b2 = body.clone();
+        t(&mut b2);
+        if b2 != body && still(&b2) {
+            body = b2;
+        }
+    }
+    if let Ok(Some((_, obs, _))) = replay_body(&body) {
+        body["observed"] = json!(obs);
+    }
+    body["minimised"] = json!(true);
+    Violation { body, ..v }
+}
